@@ -1,4 +1,5 @@
 """C04 - debugging-information entries are decoded into exactly the encoded tree."""
+import zlib
 from vf import usage
 from vf.enc import dwarf as D
 from vf import registry
@@ -302,6 +303,48 @@ def run_case(ctx, case):
                 pass
     except Exception as e:  # noqa
         ctx.fail_exc('tunits|by-signature', e, case)
+    # A by-signature look-up or an entry walk interrupted by a read error the caller catches (vf/streams.py FaultOnce) may be repeated: the
+    # repetition answers as an undisturbed object does.
+    try:
+        tus5 = w.exp['tunits']
+        if (len(tus5) >= 2 or w.exp['units']) and zlib.crc32(secs['.debug_info'] or b'') % 3 == 0:
+            from vf import streams
+            di5 = D.make_dwarfinfo(secs, case['le'], case.get('default_addr', 4), stream_cls=streams.FaultOnce)
+            if len(tus5) >= 2 and di5.debug_types_sec is not None:
+                st5 = di5.debug_types_sec.stream
+                sig = tus5[-1]['header']['signature']
+                st5.arm(2 + zlib.crc32(secs['.debug_info'] or b'') % 9)
+                try:
+                    di5.get_TU_by_sig8(sig)
+                except Exception:  # noqa
+                    pass
+                st5.disarm()
+                if st5.faults and [u['header']['signature'] for u in tus5].count(sig) == 1:
+                    ctx.count('transient-fault.by-signature-interrupted')
+                    try:
+                        tu = di5.get_TU_by_sig8(sig)
+                        if tu.tu_offset != tus5[-1]['offset']:
+                            ctx.fail('tunits|get_TU_by_sig8|repeated-after-a-failed-attempt', 'signature %#x: unit at %d, got %r' % (sig, tus5[-1]['offset'], tu.tu_offset), case)
+                    except KeyError:
+                        ctx.fail('tunits|get_TU_by_sig8|repeated-after-a-failed-attempt', 'signature %#x of the unit at %d is reported unknown after a look-up that a read error interrupted' % (sig, tus5[-1]['offset']), case)
+            if w.exp['units']:
+                eu = w.exp['units'][-1]
+                st5 = di5.debug_info_sec.stream
+                st5.arm(3 + zlib.crc32(secs['.debug_info']) % max(4, 3 * len(eu['recs'])))
+                try:
+                    list(di5.get_CU_at(eu['offset']).iter_DIEs())
+                except Exception:  # noqa
+                    pass
+                st5.disarm()
+                if st5.faults:
+                    ctx.count('transient-fault.walk-interrupted')
+                    got = [(d.offset, d.size, d.abbrev_code) for d in di5.get_CU_at(eu['offset']).iter_DIEs()]
+                    want = [(r['offset'], r['size'], r['abbrev_code'] if not r['null'] else 0) for r in eu['recs']]
+                    if got != want:
+                        ctx.fail('units|iter_DIEs|repeated-after-a-failed-attempt', 'unit at %d: %d entries encoded; a walk repeated after one that a read error interrupted yields %d%s' % (
+                            eu['offset'], len(want), len(got), '' if len(got) != len(want) else ' (different ones)'), case)
+    except Exception as e:  # noqa
+        ctx.fail_exc('repeated-after-a-failed-attempt', e, case)
     # the abbreviation declarations as the library hands them out: attribute specifications in encoded order
     try:
         for ui, eu in enumerate(w.exp['units'][:3]):
